@@ -37,7 +37,7 @@ def build(root, repo, work, seed=0, tier="quick"):
     mods, disp_all, disp_one = [], [], []
     for v in cfg["variants"]:
         g = cfg["grammars"][v["grammar"]]
-        text = open(os.path.join(udir, "grammars", v["grammar"] + ".lalrpop")).read().replace("@ATTRS@", v["attrs"])
+        text = open(os.path.join(udir, "grammars", g.get("file", v["grammar"]) + ".lalrpop")).read().replace("@ATTRS@", v["attrs"])
         src = os.path.join(gdir, v["name"] + ".lalrpop")
         open(src, "w").write(text)
         e = dict(env)
